@@ -23,11 +23,15 @@ pub struct Spec {
     pub dabs: u128,
     pub primes: Vec<u128>,
     pub kind: String,
+    pub use_double: Option<bool>,
+    pub large_factor: Option<u64>,
 }
 
 impl Spec {
     fn to_json(&self) -> Value {
         json!({
+            "use_double": self.use_double,
+            "large_factor": self.large_factor,
             "d": format!("-{}", self.dabs),
             "bits": 128 - self.dabs.leading_zeros(),
             "dabs_prime_factors": self.primes.iter().map(|p| p.to_string()).collect::<Vec<_>>(),
@@ -42,6 +46,8 @@ impl Spec {
                 .map(|a| a.iter().map(|p| p.as_str().unwrap().parse().unwrap()).collect())
                 .unwrap_or_default(),
             kind: v["kind"].as_str().unwrap_or("").to_string(),
+            use_double: v["use_double"].as_bool(),
+            large_factor: v["large_factor"].as_u64(),
         }
     }
 }
@@ -60,7 +66,12 @@ pub fn gen_spec(rng: &mut Rng, tier: Tier) -> Spec {
             }
         }
     } as u32;
+    let mut outer = 0u64;
     loop {
+        outer += 1;
+        if outer % 100000 == 0 && std::env::var("VERIF_TRACE").is_ok() {
+            eprintln!("clsgrp gen: {outer} attempts, bits={bits}");
+        }
         let kind = rng.below(3);
         // odd part: 1-4 distinct odd primes
         let k = rng.range(1, 4) as u32;
@@ -71,12 +82,14 @@ pub fn gen_spec(rng: &mut Rng, tier: Tier) -> Spec {
         for i in 0..k {
             let b = if i == k - 1 { left } else { (left / (k - i)).max(3) + rng.below(3) as u32 };
             let b = b.clamp(2, 100).min(left.max(2));
+            let mut tries = 0;
             let p = loop {
+                tries += 1;
                 let p = gen_prime(rng, b.max(2));
                 if p != 2 && !primes.contains(&p) {
                     break p;
                 }
-                if b <= 3 {
+                if b <= 3 || tries > 40 {
                     break 0;
                 }
             };
@@ -111,10 +124,15 @@ pub fn gen_spec(rng: &mut Rng, tier: Tier) -> Spec {
             continue;
         }
         primes.sort();
+        // preference knobs: double large primes are off by default below 180 bits
+        let use_double = if rng.chance(0.35) { Some(true) } else { None };
+        let large_factor = if rng.chance(0.4) { Some(*rng.pick(&[2u64, 10, 50, 200])) } else { None };
         return Spec {
             dabs,
             primes,
             kind: name.to_string(),
+            use_double,
+            large_factor,
         };
     }
 }
@@ -143,6 +161,7 @@ fn scratch_dir() -> PathBuf {
 
 pub fn run_cls(spec: &Spec, threads: Option<usize>, with_pred: bool, cfg: SimConfig) -> RunOut {
     let dabs = spec.dabs;
+    let (use_double, large_factor) = (spec.use_double, spec.large_factor);
     let dir = scratch_dir();
     let dir2 = dir.clone();
     let (sim, res) = run_sim(cfg, move || {
@@ -150,6 +169,8 @@ pub fn run_cls(spec: &Spec, threads: Option<usize>, with_pred: bool, cfg: SimCon
         let mut prefs = Preferences::default();
         prefs.verbosity = Verbosity::Silent;
         prefs.outdir = Some(dir2);
+        prefs.use_double = use_double;
+        prefs.large_factor = large_factor;
         if with_pred {
             prefs.should_abort = Some(Box::new(simcore::probe::abort_poll));
         }
@@ -592,6 +613,9 @@ impl Family for ClsgrpFamily {
         let spec = gen_spec(&mut rng, tier);
         rep.sample = spec.to_json();
         rep.stat(&format!("kind_{}", spec.kind), 1);
+        if spec.use_double == Some(true) {
+            rep.stat("scenarios_with_double_large_primes", 1);
+        }
         crate::common::phase(idx, "reference");
         let mut rcfg = SimConfig::reference(derive(seed, prop, idx, "reference"));
         rcfg.wall_limit_ms = Some(if tier == Tier::Quick { 15_000 } else { 60_000 });
